@@ -1018,11 +1018,20 @@ func c02CodeWireType(c *core.Ctx) {
 	}
 	for _, fn := range p.LibFuncs("httpgrpc") {
 		if fn.Signature.Results().Len() == 1 && core.TypeStr(fn.Signature.Results().At(0).Type()) == "*"+statusPkg+".Status" && len(fn.Params) == 1 {
-			for _, pc := range core.CallsIn(fn, func(_ *ssa.Call, ci core.CallInfo) bool {
-				return ci.Is("strconv.ParseInt") || ci.Is("strconv.ParseUint")
-			}) {
-				bits, _ := core.ConstInt(pc.Call.Args[2])
-				cliBits = fmt.Sprintf("%s/%d", core.InfoOf(&pc.Call).Name, bits)
+			// the decoder and the helpers of the package it hands the reply to
+			family := []*ssa.Function{fn}
+			for _, h := range core.HelperCallsOf(fn) {
+				if core.PkgIs(h.Callee, "httpgrpc") {
+					family = append(family, h.Callee)
+				}
+			}
+			for _, f := range family {
+				for _, pc := range core.CallsIn(f, func(_ *ssa.Call, ci core.CallInfo) bool {
+					return ci.Is("strconv.ParseInt") || ci.Is("strconv.ParseUint")
+				}) {
+					bits, _ := core.ConstInt(pc.Call.Args[2])
+					cliBits = fmt.Sprintf("%s/%d", core.InfoOf(&pc.Call).Name, bits)
+				}
 			}
 		}
 	}
